@@ -350,6 +350,11 @@ fn raw_case(src: &mut Src, ctx: &mut Ctx) -> Result<(), String> {
             continue;
         }
         let mut c = ptrs[i].write().unwrap();
+        // a cell with instances may carry an abstract view beside its layout
+        if (views >> (i % 29)) & 7 == 5 {
+            let outline = raw::Polygon { points: vec![raw::Point::new(0, 0), raw::Point::new(1, 0), raw::Point::new(1, 1), raw::Point::new(0, 1)] };
+            c.abs = Some(raw::Abstract::new(name_of(i), outline));
+        }
         let lay = c.layout.as_mut().unwrap();
         for (k, d) in deps.iter().enumerate() {
             lay.insts.push(raw::Instance { inst_name: format!("i{}", k), cell: ptrs[*d].clone(), loc: raw::Point::new(0, 0), reflect_vert: false, angle: None });
@@ -428,6 +433,9 @@ fn tetris_lib(g: &Graph, listing: &[usize], views: u64) -> tet::library::Library
             continue;
         }
         let mut c = ptrs[i].write().unwrap();
+        if (views >> (i % 29)) & 7 == 5 {
+            c.abs = Some(Abstract::new(name_of(i), 0, Outline::rect(1, 1).unwrap()));
+        }
         let lay = c.layout.as_mut().unwrap();
         for (k, d) in deps.iter().enumerate() {
             lay.instances.add(Instance { inst_name: format!("i{}", k), cell: ptrs[*d].clone(), loc: (k as isize, 0isize).into(), reflect_horiz: false, reflect_vert: false });
@@ -452,7 +460,17 @@ fn tetris_case(src: &mut Src, ctx: &mut Ctx) -> Result<(), String> {
     }
     let lib = tetris_lib(&g, &listing, views);
     let res = crate::props::compat::tetris_dep_order(&lib).and_then(|o| o.iter().map(|p| index_of(&p.read().unwrap().name)).collect());
-    judge(&g, &listing, res, "tetris Library::dep_order")
+    judge(&g, &listing, res, "tetris Library::dep_order")?;
+    // the placer walks the cells in that same order: on a cyclic cell graph it must report the error too
+    // (all instances here have absolute locations, so nothing else can go wrong)
+    let reach = reachable(&g, &listing);
+    let cyclic = has_cycle(&g, &reach);
+    let placed = tet::placer::Placer::place(tetris_lib(&g, &listing, views), empty_stack());
+    match (cyclic, placed) {
+        (true, Ok(_)) => Err(format!("Placer::place: the cell graph {:?} (listing {:?}) has a cycle but placement succeeded instead of reporting an error", g, listing)),
+        (false, Err(e)) => Err(format!("Placer::place: acyclic cell graph {:?} (listing {:?}) was refused: {:?}", g, listing, e)),
+        _ => Ok(()),
+    }
 }
 fn tetris_proto_case(src: &mut Src, ctx: &mut Ctx) -> Result<(), String> {
     let (g, listing) = gen_embedded(src);
